@@ -3,6 +3,7 @@ import random, json, copy, re, sys
 import fences_env
 from common import Check, run_driver
 import oagen, graphs, jsonschemas as J
+import c18, core
 
 fences_env.load()
 import jsonschema  # noqa: E402
@@ -142,6 +143,49 @@ def oracle(desc, cache=None):
     return res
 
 
+def graph_obs(g, op, names, vals):
+    """what generate_paths yields for the graph of generate_all, and what every path applies, group by group
+    (the implementation's side of correspondence stream OG)"""
+    G.InsertParamLeaf.apply = _param_apply
+    G.InsertBodyLeaf.apply = _body_apply
+    try:
+        try:
+            entries = list(g.generate_paths())
+        except Exception as e:  # noqa
+            return "|fail=" + graphs.err_str(e)
+        n_groups = len(op.parameters) + (1 if op.request_body else 0)
+        out = []
+        for e in entries:
+            del APPLIED[:]
+            try:
+                g.execute(e.path)
+            except Exception as ex:  # noqa
+                out.append("%s:%d:!%s" % (graphs.ints(e.path), int(bool(e.is_valid)), graphs.err_str(ex)))
+                continue
+            picks = ["o"] * n_groups
+            for kind, leaf in list(APPLIED):
+                if kind == "param":
+                    gi = [i for i, p in enumerate(op.parameters) if p is leaf.parameter]
+                    if len(gi) != 1:
+                        picks.append("!foreign-parameter")
+                        continue
+                    picks[gi[0]] = str(vals(c18.jtext(leaf.raw_value)))
+                else:
+                    picks[n_groups - 1] = str(vals(c18.jtext(leaf.body)))
+            out.append("%s:%d:%s" % (graphs.ints(e.path), int(bool(e.is_valid)), ".".join(picks)))
+        return "|entries=" + ",".join(out) + "|status=ok:|wf=1"
+    finally:
+        G.InsertParamLeaf.apply = _orig_param_apply
+        G.InsertBodyLeaf.apply = _orig_body_apply
+
+
+def og_case(desc):
+    """stream OG: the plan and the request graph of the model (coq/OpenApi.v, coq/OpenApiGraph.v) against generate_all"""
+    ops = c18.fresh_ops(desc)
+    h = [("all", i, None) for i in range(len(ops))]
+    return c18.model_line(desc, h, stream=["OG"] + [str(x) for x in core.VARIANT], extra=graph_obs)
+
+
 def shrink(desc, bad):
     changed = True
     while changed:
@@ -185,8 +229,16 @@ def run(pid, tier):
     hist = {"operations": 0, "with_body": 0, "parameters": 0}
     sys.setrecursionlimit(2500)
     shared = G.SampleCache()          # one cache for all descriptions of the run: equal $ref names, different components
+    lines, expect, meta = [], [], []
     for _ in range(n):
         desc = oagen.description(rng, rng.choice([1, 2, 3]), allow_body_scalar=False)
+        try:
+            line, impl = og_case(desc)
+            lines.append(line)
+            expect.append(impl)
+            meta.append(desc)
+        except Exception as e:  # noqa
+            hist["og_skipped"] = hist.get("og_skipped", 0) + 1
         txt = json.dumps(desc, sort_keys=True)
         ck.count(txt, '"parameters": [{' in txt)
         hist["operations"] += len(desc["paths"])
@@ -198,19 +250,48 @@ def run(pid, tier):
                 small = shrink(desc, lambda c: any(s == sig for s, _, _ in oracle(c)))
             ck.violation(sig, what, {"stream": "O", "description": small, "operation": opid})
             ck.cov["traces_validated_against_impl"] += 1
+    model = run_driver(lines)
+    hist["og_cases"] = len(lines)
+    hist["og_requests"] = sum(e.count(":1:") + e.count(":0:") for e in expect)
+    hist["og_bare_operations"] = sum(e.count("ok:|entries=") for e in expect)
+    for m, e, desc in zip(model, expect, meta):
+        ck.cov["traces_validated_against_impl"] += 1
+        if m != e:
+            ck.cov["disagreements_checked"] += 1
+            # the theorems of Properties/C10.v speak about the model's graph: look for a request of the implementation
+            # whose label contradicts its parts before giving up
+            found = [x for x in oracle(desc) if x[0] != "generate-all-raises"]
+            if found:
+                sig, what, opid = found[0]
+                ck.violation(sig, what, {"stream": "O", "description": desc, "operation": opid})
+            else:
+                ck.violation("correspondence-OG", "request graph model (coq/OpenApiGraph.v) and generate_all disagree",
+                             {"stream": "OG", "description": desc, "impl": e[:2000], "model": m[:2000],
+                              "theorem": "correspondence stream OG (C10_label, C10_label_conforms, C10_cover rest on it)"},
+                             found_input=False)
     ck.sample({"paths": list(oagen.description(random.Random(2), 2)["paths"].keys())})
     ck.cov["rule"] = ("random OpenAPI descriptions (1-3 operations; path/query/header/cookie parameters over scalar conjunctive schemas, some behind $ref into components "
                       "with sibling keywords, style simple/form, required/optional; optional/required JSON bodies with conjunctive object schemas); every request of "
-                      "generate_all judged part by part with jsonschema; distinct = description, non-trivial = has parameters")
+                      "generate_all judged part by part with jsonschema, and every operation's plan, generated entries, labels and applied options compared with the extracted model "
+                      "(stream OG); distinct = description, non-trivial = has parameters")
     ck.notes["input_distribution"] = hist
     ck.assumptions = ["a null body cannot be told from an omitted one", "judge of the parts: jsonschema Draft202012Validator on the raw sample of each applied leaf"]
-    return ck.finish(level="other", trusted=["model of generate_all as a plan: coq/OpenApi.v; the label theorem is the instance of C03 for the request graph"],
-                     explanation="part-by-part oracle on the implementation (jsonschema as judge of every carried value); the label theorem is the C03 instance for the request graph, "
-                                 "whose well-formedness is checked per graph by the model's wfb in ./check C14")
+    return ck.finish(level="proof",
+                     trusted=["models: coq/OpenApi.v (plan of generate_all, stream O), coq/OpenApiGraph.v (request graph, stream OG); node ids, make_path and the serialisation of values are not modelled",
+                              "hypothesis of C10_label_conforms: the JSON pipeline labels its samples correctly (judged per request by jsonschema here; C01 / C02)"],
+                     explanation="C10_label / C10_label_conforms / C10_cover (coq/Properties/C10.v) hold for every plan; streams O and OG tie plan, graph, entries, labels and the option each path applies "
+                                 "per group to generate.py; the part-by-part oracle (jsonschema as judge of every carried value, method, placeholders, required parts) runs on the implementation alone")
 
 
 def replay(pid, path):
     d = json.load(open(path))
+    if d.get("stream") == "OG":
+        line, impl = og_case(d["description"])
+        m = run_driver([line])[0]
+        if m != impl:
+            print("replayed: request graph model and generate_all disagree\n impl : %s\n model: %s" % (impl[:600], m[:600]))
+            return 1
+        return 0
     res = oracle(d["description"])
     for sig, what, _ in res:
         print("replayed: %s [%s]" % (what, sig))
